@@ -14,6 +14,7 @@ package main
 import (
 	"encoding/json"
 	"fmt"
+	"os"
 	"strings"
 )
 
@@ -335,6 +336,14 @@ func (c *FnCtx) jsonWalk(st *State, t string, r *jsRun, depth int) bool {
 
 // jsonDocTerm decides jsonDoc for a term.
 func (c *FnCtx) jsonDocTerm(st *State, t string) string {
+	r := c.jsonDocTerm1(st, t)
+	if os.Getenv("VCGO_DEBUG") != "" {
+		fmt.Fprintf(os.Stderr, "jsonDoc(%.300s) = %.120s\n", t, r)
+	}
+	return r
+}
+
+func (c *FnCtx) jsonDocTerm1(st *State, t string) string {
 	// a reply chosen by a switch: (ite c a b), possibly behind a merge name
 	if p := sexpArgs(t); len(p) == 4 && p[0] == "ite" {
 		return tIte(p[1], c.jsonDocTerm(st, p[2]), c.jsonDocTerm(st, p[3]))
@@ -357,7 +366,7 @@ func (c *FnCtx) jsonDocTerm(st *State, t string) string {
 	if ok {
 		return "true"
 	}
-	c.warn("jsonDoc: not a well-formed reply: %s", why)
+	c.warn("jsonDoc: not a well-formed reply: %s (term %.200s)", why, t)
 	return "false"
 }
 
@@ -375,6 +384,13 @@ func (c *FnCtx) definitionOf(st *State, t string) string {
 					return p[2]
 				}
 				if p[2] == t && strings.HasPrefix(p[1], "(") {
+					return p[1]
+				}
+				// result constant equated with another constant (a value handed through a contract): follow it
+				if p[1] == t && p[2] != t && atomOrder(p[2], t) {
+					return p[2]
+				}
+				if p[2] == t && p[1] != t && atomOrder(p[1], t) {
 					return p[1]
 				}
 			}
@@ -415,4 +431,24 @@ func (c *FnCtx) definitionOf(st *State, t string) string {
 		}
 	}
 	return ""
+}
+
+// atomOrder: follow an equation between two constants only towards the older one (smaller serial number), so that the
+// walk terminates.
+func atomOrder(to, from string) bool {
+	if strings.HasPrefix(to, "(") {
+		return false
+	}
+	if strings.HasPrefix(to, "lit!") || to == "empty_Str" {
+		return true
+	}
+	num := func(s string) int {
+		i := strings.LastIndex(s, "!")
+		n := 0
+		if i >= 0 {
+			fmt.Sscanf(s[i+1:], "%d", &n)
+		}
+		return n
+	}
+	return num(to) > 0 && num(to) < num(from)
 }
